@@ -30,6 +30,28 @@ Qed.
 Lemma end_card_len : String.length end_card = 80.
 Proof. reflexivity. Qed.
 
+(* no written card can be taken for the terminator: byte 8 of every card is '=', byte 8 of the END card is a blank -- whatever
+   the keyword is, in particular a keyword that begins with the letters END (ENDTIME, END_MJD, even END itself) *)
+Lemma get_append_at a b : String.get (String.length a) (a ++ b) = String.get 0 b.
+Proof. induction a as [|c a IH]; cbn; [reflexivity|exact IH]. Qed.
+Lemma get_append_lt a b n : n < String.length a -> String.get n (a ++ b) = String.get n a.
+Proof. revert n; induction a as [|c a IH]; intros n Hn; cbn in *; [lia|]. destruct n; [reflexivity|]. apply IH. lia. Qed.
+Lemma card_byte8 key v : String.length key <= 8 -> String.get 8 (format_line key v) = Some "="%char.
+Proof.
+  intros Hk. unfold format_line.
+  assert (L8 : String.length (ljust 8 key) = 8) by (rewrite length_ljust; lia).
+  assert (K : forall rest, String.get 8 ((ljust 8 key ++ "= ") ++ rest) = Some "="%char).
+  { intros rest. rewrite get_append_lt by (rewrite length_append, L8; cbn; lia).
+    rewrite <- L8 at 1. rewrite get_append_at. reflexivity. }
+  unfold ljust at 1. rewrite get_append_lt.
+  - destruct v; apply K.
+  - destruct v; rewrite !length_append, L8; cbn; lia.
+Qed.
+Theorem card_not_end key v : String.length key <= 8 -> format_line key v <> end_card.
+Proof.
+  intros Hk E. pose proof (card_byte8 key v Hk) as H. rewrite E in H. cbn in H. discriminate.
+Qed.
+
 (* ---------------- padding ---------------- *)
 Lemma pad_aligned n : (80 * n + pad_len n true) mod 512 = 0.
 Proof.
